@@ -24,8 +24,9 @@ fn play(rng: &mut Rng, r: &mut Report, rp: &dyn Fn() -> Json, continue_existing:
         let mut m = dr::Module::new();
         m.header = Some(dr::ModuleHeader::new(start));
         // an existing module may already hold type declarations
-        if rng.chance(1, 2) {
-            m.types_global_values.push(dr::Instruction::new(rspirv::spirv::Op::TypeVoid, None, Some(start.saturating_sub(1).max(1)), vec![]));
+        if rng.chance(1, 2) && start >= 2 {
+            // ids of the existing module lie below its bound
+            m.types_global_values.push(dr::Instruction::new(rspirv::spirv::Op::TypeVoid, None, Some(start - 1), vec![]));
         }
         Builder::new_from_module(m)
     } else {
